@@ -1192,7 +1192,7 @@ int cif_container_remove_item(
         ) {
     FAILURE_HANDLING;
     cif_tp *cif;
-    UChar *normalized_name;
+    UChar *normalized_name = NULL;
     int result;
 
     if (container == NULL) return CIF_INVALID_HANDLE;
@@ -1256,6 +1256,7 @@ int cif_container_remove_item(
                         }
                     }
                     if (COMMIT(cif->db) == SQLITE_OK) {
+                        free(normalized_name);
                         return CIF_OK;
                     }
                     /* fall through */
@@ -1271,6 +1272,7 @@ int cif_container_remove_item(
     DROP_STMT(cif, get_loop_size);
 
     FAILURE_HANDLER(soft):
+    free(normalized_name);
     FAILURE_TERMINUS;
 }
 
